@@ -94,6 +94,11 @@ def run(prop, tier, seed, scratch, replay=None):
                                "-every", every, "-offset", seed % every, "-workers", vlib.NCPU], timeout=3600)
         wl = vlib.load_report(wrep)
         res.add_report(wl)
+        if prop == "C13":
+            # binding self-test of the listing comparison: a perturbed placement of a transaction must be noticed
+            wl["binding_selftest"] = vlib.binding_selftest(
+                scratch, wdrv, lambda i, o: ["-in", i, "-out", o, "-spec", "chainsync", "-prop", prop, "-seed", seed, "-workers", vlib.NCPU],
+                wtr, ["wconf"], tag="cs-selftest", n=48, where=lambda tr: len(tr.get("steps") or []) >= 2)
     # binding self-test: the parts of the expectation this property asserts, perturbed, must be noticed
     fields = {"C01": ["bal", "utxo", "watch"], "C02": ["bal", "unmined"], "C12": ["leases", "bal"], "C13": ["details", "unmined"]}[prop]
     st = vlib.binding_selftest(scratch, drv, lambda i, o: ["-in", i, "-graphs", graphs, "-out", o, "-prop", prop, "-workers", vlib.NCPU],
@@ -138,7 +143,8 @@ def run(prop, tier, seed, scratch, replay=None):
     if wl and sp:
         res.coverage["wallet_level_pass_reorgs"] = {"spec": "spec/ChainSync.tla", "behaviours_replayed": wl["traces"], "comparisons": wl["checks"],
                                                      "distinct_nontrivial": wl["distinct_nontrivial"],
-                                                     "observed_through": "GetTransactions (ascending and descending) after every step"}
+                                                     "observed_through": "GetTransactions (ascending and descending) after every step",
+                                                     "binding_selftest": wl.get("binding_selftest")}
         res.coverage["traces_validated_against_impl"] += wl["traces"]
     elif wl:
         res.coverage["wallet_level_pass"] = {"behaviours_replayed": wl["traces"], "comparisons": wl["checks"],
